@@ -758,6 +758,7 @@ class EndpointResponseHandlerGenerator:
             elif self._should_use_cattrs_structure(python_type):
                 # Complex type - use cattrs deserialization
                 context.add_typing_imports_for_type(python_type)
+                self._register_cattrs_import(context)
                 deserialization_code = self._get_cattrs_deserialization_code(python_type, "response.json()")
                 writer.write_line(f"return {deserialization_code}")
             else:
